@@ -99,6 +99,8 @@ def f_logql_logql_transpiler_v2_clickhouse_planner_planner_by_without : List Ent
   ⟨4108842339348802392, sql, [alias], ""⟩,
   -- byWithoutFilterCol.String | stringer |  | 
   ⟨8747563789005451368, marker, [], ""⟩,
+  -- byWithoutFilterCol.String | sprintf | mapFilter((k,v) -> 0, %s) | str «#0 of b.labelsCol.String(ctx, opts...)»
+  ⟨8517416166567693917, sql, [rendered], ""⟩,
   -- byWithoutFilterCol.String | sprintf | mapFilter((k,v) -> k %s (%s), %s) | fn «"IN" | "NOT IN"»; strings.Join(sqlLabels, ",") «»; str «#0 of b.labelsCol.String(ctx, opts...)»
   ⟨10944517613636773530, sql, [codeText, rendered, rendered], ""⟩
 ]
@@ -205,14 +207,14 @@ def f_logql_logql_transpiler_v2_clickhouse_planner_planner_line_format : List En
 ]
 /-! ### logql/logql_transpiler_v2/clickhouse_planner/planner_lra.go -/
 def f_logql_logql_transpiler_v2_clickhouse_planner_planner_lra : List Entry := [
-  -- LRAPlanner.Process | raw |  | fmt.Sprintf("toFloat64(COUNT()) / %f", float64(l.Duration.Milliseconds())/1000) «»
-  ⟨4253991584898952753, sql, [nested], ""⟩,
-  -- LRAPlanner.Process | sprintf | toFloat64(COUNT()) / %f | float64(l.Duration.Milliseconds()) / 1000 «»
-  ⟨17516625313192438677, sql, [number], ""⟩,
-  -- LRAPlanner.Process | raw |  | fmt.Sprintf("toFloat64(sum(length(_string))) / %f", float64(l.Duration.Milliseconds())/1000) «»
-  ⟨15162711779599815240, sql, [nested], ""⟩,
-  -- LRAPlanner.Process | sprintf | toFloat64(sum(length(_string))) / %f | float64(l.Duration.Milliseconds()) / 1000 «»
-  ⟨2311561616576807476, sql, [number], ""⟩,
+  -- LRAPlanner.Process | raw |  | fmt.Sprintf("toFloat64(COUNT()) * 1000000000 / %d", l.Duration.Nanoseconds()) «»
+  ⟨1526380577921501852, sql, [nested], ""⟩,
+  -- LRAPlanner.Process | sprintf | toFloat64(COUNT()) * 1000000000 / %d | l.Duration.Nanoseconds() «»
+  ⟨1558942207451340740, sql, [number], ""⟩,
+  -- LRAPlanner.Process | raw |  | fmt.Sprintf("toFloat64(sum(length(_string))) * 1000000000 / %d", l.Duration.Nanoseconds()) «»
+  ⟨10132844463191632493, sql, [nested], ""⟩,
+  -- LRAPlanner.Process | sprintf | toFloat64(sum(length(_string))) * 1000000000 / %d | l.Duration.Nanoseconds() «»
+  ⟨5278384247995147593, sql, [number], ""⟩,
   -- LRAPlanner.Process | simplecol |  | fmt.Sprintf("intDiv(time_series.timestamp_ns, %d) * %[1]d", l.Duration.Nanoseconds()) «»; "timestamp_ns" «const»
   ⟨7029133934088922857, sql, [nested, codeText], ""⟩,
   -- LRAPlanner.Process | sprintf | intDiv(time_series.timestamp_ns, %d) * %[1]d | l.Duration.Nanoseconds() «»
@@ -372,10 +374,10 @@ def f_logql_logql_transpiler_v2_clickhouse_planner_planner_unwrap : List Entry :
 ]
 /-! ### logql/logql_transpiler_v2/clickhouse_planner/planner_unwrap_function.go -/
 def f_logql_logql_transpiler_v2_clickhouse_planner_planner_unwrap_function : List Entry := [
-  -- UnwrapFunctionPlanner.Process | raw |  | fmt.Sprintf("sum(unwrap_1.value) / %f", float64(u.Duration.Milliseconds())/1000) «»
-  ⟨13754737269046553333, sql, [nested], ""⟩,
-  -- UnwrapFunctionPlanner.Process | sprintf | sum(unwrap_1.value) / %f | float64(u.Duration.Milliseconds()) / 1000 «»
-  ⟨16556163096868179103, sql, [number], ""⟩,
+  -- UnwrapFunctionPlanner.Process | raw |  | fmt.Sprintf("sum(unwrap_1.value) * 1000000000 / %d", u.Duration.Nanoseconds()) «»
+  ⟨8606732979628721210, sql, [nested], ""⟩,
+  -- UnwrapFunctionPlanner.Process | sprintf | sum(unwrap_1.value) * 1000000000 / %d | u.Duration.Nanoseconds() «»
+  ⟨2294303047273210504, sql, [number], ""⟩,
   -- UnwrapFunctionPlanner.Process | simplecol |  | fmt.Sprintf("intDiv(timestamp_ns, %d) * %[1]d", u.Duration.Nanoseconds()) «»; "timestamp_ns" «const»
   ⟨17948493511835302538, sql, [nested, codeText], ""⟩,
   -- UnwrapFunctionPlanner.Process | sprintf | intDiv(timestamp_ns, %d) * %[1]d | u.Duration.Nanoseconds() «»
@@ -564,14 +566,18 @@ def f_promql_transpiler_init_downsample_clickhouse_planner : List Entry := [
 /-! ### promql/transpiler/shared.go -/
 def f_promql_transpiler_shared : List Entry := [
   -- fingerprintsQuery | concat | ^(?:%s)$ | val «matcher.GetVal() | "^(?:" + val + ")$"»
-  ⟨10754384289328673214, notSql, [other], "anchored regex, a NewStringVal leaf afterwards (model: Prom.Cond)"⟩
+  ⟨10754384289328673214, notSql, [other], "anchored regex, a NewStringVal leaf afterwards (model: Prom.Cond)"⟩,
+  -- optionalLabelsQuery | sprintf | %s op not supported | ops[i] «»
+  ⟨8588016881244080093, notSql, [other], ""⟩,
+  -- optionalLabelsQuery | raw |  | ctx.TimeSeriesGinTableName «»
+  ⟨13599595497814092052, sql, [config], ""⟩
 ]
 /-! ### promql/transpiler/transpiler.go -/
 def f_promql_transpiler_transpiler : List Entry := [
-  -- processHints | simplecol |  | fmt.Sprintf("intDiv(spls.timestamp_ms - %d + %d - 1, %d) * %d + %d", hints.Start, hints.Step, hints.Step, hints.Step, hints.Start) «»; "timestamp_ms" «const»
-  ⟨13993389560959875767, sql, [nested, codeText], ""⟩,
-  -- processHints | sprintf | intDiv(spls.timestamp_ms - %d + %d - 1, %d) * %d + %d | hints.Start «»; hints.Step «»; hints.Step «»; hints.Step «»; hints.Start «»
-  ⟨6798364958793820959, sql, [number, number, number, number, number], ""⟩,
+  -- processHints | raw |  | fmt.Sprintf("intDiv(spls.timestamp_ms - %d + %d - 1, %d)", hints.Start, hints.Step, hints.Step) «»
+  ⟨3313417022733788834, sql, [nested], ""⟩,
+  -- processHints | sprintf | intDiv(spls.timestamp_ms - %d + %d - 1, %d) | hints.Start «»; hints.Step «»; hints.Step «»
+  ⟨17792446953528357598, sql, [number, number, number], ""⟩,
   -- processHints | raw |  | fmt.Sprintf("(timestamp_ms - %d) %% %d", hints.Start, hints.Step) «»
   ⟨14117126826961798420, sql, [nested], ""⟩,
   -- processHints | sprintf | (timestamp_ms - %d) %% %d | hints.Start «»; hints.Step «»
@@ -660,6 +666,8 @@ def f_service_queryLabelsService : List Entry := [
   ⟨10673741153024787373, sql, [config], ""⟩,
   -- QueryLabelsService.Labels | simplecol |  | samplesKVTable «tables.GetTableName("time_series_gin") | tables.GetTableName("time_series_gin_dist")»; "samples" «const»
   ⟨17041733930747546375, sql, [config, codeText], ""⟩,
+  -- QueryLabelsService.PromLabels | simplecol |  | plannerCtx.TimeSeriesGinTableName «»; "samples" «const»
+  ⟨10898320811360637238, sql, [config, codeText], ""⟩,
   -- QueryLabelsService.Prom2LogqlMatch | sprintf | {%s} | strings.Join(strMatchers, ",") «»
   ⟨14662539194651534838, notSql, [other], "LogQL text handed to the LogQL parser"⟩
 ]
